@@ -1,4 +1,7 @@
 import PqV.Lemmas.KDelta
+import PqV.Lemmas.KVarint
+import PqV.Lemmas.KZigzag
+import PqV.Lemmas.Delta
 /-! Towards `delta_binary_unpack`: the j-loops of one miniblock in list form. -/
 namespace PqV.Impl
 open PqV.Spec
@@ -339,5 +342,1007 @@ theorem deltaBlockLoop_step (buf : List Nat) (hbytes : ∀ b ∈ buf, b < 256) (
     by_cases hcv : c ≤ vpm
     · simp [hcv]
     · simp [hcv]
+
+
+/-- a width-0 miniblock in the block loop -/
+theorem deltaBlockLoop_step_zero (buf : List Nat) (ib vpm : Nat) (md : Int)
+    (bwLoc k i loc : Nat) (o : DOut) (value : Int) (c : Nat)
+    (hw : buf[bwLoc + i]? = some 0) (hc : 1 ≤ c) (hroom : o.pos + c = o.slots.size) :
+    ∃ o', o'.L = o.L.take o.pos ++ chainOut ib md value (List.replicate (min vpm c) 0) ++ o.L.drop (o.pos + min vpm c) ∧
+      o'.pos = o.pos + min vpm c ∧ o'.slots.size = o.slots.size ∧
+      deltaBlockLoop buf ib vpm md bwLoc (k + 1) i loc o value (c : Int) =
+        (if c ≤ vpm then
+          .ok (loc, o', chainVal md value (List.replicate (min vpm c) 0), (c : Int) - (min vpm c : Nat), true)
+        else deltaBlockLoop buf ib vpm md bwLoc k (i + 1) loc o'
+            (chainVal md value (List.replicate (min vpm c) 0)) ((c : Int) - (min vpm c : Nat))) := by
+  obtain ⟨o', e1, e2, e3, e4⟩ := deltaZero_run ib md vpm o value c hc (by omega)
+  refine ⟨o', e2, e3, e4, ?_⟩
+  conv => lhs; unfold deltaBlockLoop
+  have hrd : rd buf (bwLoc + i) = .ok 0 := by simp [rd, hw]
+  simp only [hrd, bind, Except.bind, ne_eq, not_true_eq_false, if_false]
+  show (match (deltaZero ib md vpm o value c) with | (o, value, count, done) => _) = _
+  rw [e1]
+  by_cases hcv : c ≤ vpm
+  · simp [hcv]
+  · simp [hcv]
+
+/-- the last value, in a miniblock of non-zero width: nothing is unpacked, the value is stored, done -/
+theorem deltaBlockLoop_step_last (buf : List Nat) (ib vpm : Nat) (md : Int)
+    (bwLoc k i loc w : Nat) (o : DOut) (value : Int)
+    (hw : buf[bwLoc + i]? = some w) (hw1 : w ≠ 0) (hvpm : 1 ≤ vpm) (hroom : o.pos + 1 = o.slots.size) :
+    ∃ o' value', o'.L = o.L.take o.pos ++ [wrapU ib value] ++ o.L.drop (o.pos + 1) ∧
+      o'.pos = o.pos + 1 ∧ o'.slots.size = o.slots.size ∧
+      deltaBlockLoop buf ib vpm md bwLoc (k + 1) i loc o value 1 = .ok (loc, o', value', 0, true) := by
+  obtain ⟨n, rfl⟩ : ∃ n, vpm = n + 1 := ⟨vpm - 1, by omega⟩
+  have hin : o.pos < o.slots.size := by omega
+  have hLlen : o.L.length = o.slots.size := by simp [DOut.L]
+  obtain ⟨w1, w2, w3⟩ := DOut.write_in { o with pos := o.pos } (wrapU ib value) hin
+  refine ⟨{ o with pos := o.pos }.write (wrapU ib value),
+    wrapS 64 (value + md + wrapS ib ((o.L[o.pos]'(by rw [hLlen]; exact hin) : Nat) : Int)), ?_, w2, w3, ?_⟩
+  · rw [w1]
+    have h1 := set_take_succ o.L o.pos (wrapU ib value) (by rw [hLlen]; exact hin)
+    have h2 := set_drop_after o.L o.pos (wrapU ib value) 0 (by rw [hLlen]; exact hin)
+    simp only [Nat.add_zero] at h2
+    rw [← List.take_append_drop (o.pos + 1) (o.L.set o.pos (wrapU ib value)), h1, h2]
+  · conv => lhs; unfold deltaBlockLoop
+    have hrd : rd buf (bwLoc + i) = .ok w := by simp [rd, hw]
+    have hgt : ¬ ((1 : Int) > 1) := by omega
+    simp only [hrd, bind, Except.bind, hw1, ne_eq, not_false_eq_true, if_true, hgt, if_false]
+    simp only [deltaMini, DOut.read_in o hin, hin, if_true, Nat.add_sub_cancel]
+    simp
+
+
+abbrev Mini := Nat × List Nat
+
+def miniBytes (vpm : Nat) (m : Mini) : Nat := if m.1 = 0 then 0 else (vpm * m.1 + 7) / 8
+
+/-- the buffer holds the widths at `bwLoc + i ..` and the packed miniblocks from `loc` on -/
+def Layout (buf : List Nat) (vpm bwLoc : Nat) : Nat → Nat → List Mini → Prop
+  | _, _, [] => True
+  | i, loc, m :: rest =>
+    buf[bwLoc + i]? = some m.1 ∧ m.1 ≤ 28 ∧ m.2.length = vpm ∧
+    (m.1 = 0 → m.2 = List.replicate vpm 0) ∧
+    (m.1 ≠ 0 → loc + (vpm * m.1 + 7) / 8 ≤ buf.length ∧
+      (List.range vpm).map (fun j => bitField m.1 j (streamOf buf loc)) = m.2) ∧
+    Layout buf vpm bwLoc (i + 1) (loc + miniBytes vpm m) rest
+
+/-- what the miniblocks of one block stand for: (values stored, running value, values still to come, done) -/
+def absRun (ib : Nat) (md : Int) (vpm : Nat) : List Mini → Int → Nat → (List Nat × Int × Nat × Bool)
+  | [], v, c => ([], v, c, false)
+  | m :: rest, v, c =>
+    let r := min vpm c
+    let outs := chainOut ib md v (m.2.take r)
+    let v' := chainVal md v (m.2.take r)
+    if c ≤ vpm then (outs, v', c - r, true)
+    else
+      let t := absRun ib md vpm rest v' (c - r)
+      (outs ++ t.1, t.2.1, t.2.2.1, t.2.2.2)
+
+theorem splice_splice (L X Y : List Nat) (p r k : Nat) (hX : X.length = r) (hp : p + r ≤ L.length) :
+    (L.take p ++ X ++ L.drop (p + r)).take (p + r) ++ Y ++ (L.take p ++ X ++ L.drop (p + r)).drop (p + r + k)
+      = L.take p ++ (X ++ Y) ++ L.drop (p + (r + k)) := by
+  have hl : (L.take p ++ X).length = p + r := by simp [hX]; omega
+  rw [List.take_append_of_le_length (by rw [hl]), List.take_of_length_le (by rw [hl])]
+  rw [List.drop_append, hl]
+  have e1 : (L.take p ++ X).drop (p + r + k) = [] := by
+    apply List.drop_eq_nil_of_le; rw [hl]; omega
+  have e2 : p + r + k - (p + r) = k := by omega
+  rw [e1, e2, List.nil_append, List.drop_drop]
+  have e3 : p + r + k = p + (r + k) := by omega
+  rw [e3]
+  simp [List.append_assoc]
+
+
+/-- **one block of `delta_binary_unpack`**: its miniblocks one after the other (any mixture of widths
+    0..28) until the announced count is reached or the block ends -/
+theorem deltaBlockLoop_run (buf : List Nat) (hbytes : ∀ b ∈ buf, b < 256) (ib vpm : Nat) (hib : 32 ≤ ib) (hvpm : 1 ≤ vpm) (md : Int)
+    (bwLoc : Nat) : ∀ (ms : List Mini) (i loc : Nat) (o : DOut) (value : Int) (c : Nat),
+    Layout buf vpm bwLoc i loc ms → 1 ≤ c → o.pos + c = o.slots.size →
+    ∃ loc' o' value', deltaBlockLoop buf ib vpm md bwLoc ms.length i loc o value (c : Int)
+        = .ok (loc', o', value', ((absRun ib md vpm ms value c).2.2.1 : Int), (absRun ib md vpm ms value c).2.2.2) ∧
+      o'.L = o.L.take o.pos ++ (absRun ib md vpm ms value c).1 ++ o.L.drop (o.pos + (absRun ib md vpm ms value c).1.length) ∧
+      o'.pos = o.pos + (absRun ib md vpm ms value c).1.length ∧ o'.slots.size = o.slots.size ∧
+      (absRun ib md vpm ms value c).1.length + (absRun ib md vpm ms value c).2.2.1 = c ∧
+      ((absRun ib md vpm ms value c).2.2.2 = false →
+        value' = (absRun ib md vpm ms value c).2.1 ∧ loc' = loc + (ms.map (miniBytes vpm)).sum ∧
+        1 ≤ (absRun ib md vpm ms value c).2.2.1) := by
+  intro ms
+  induction ms with
+  | nil =>
+    intro i loc o value c _ hc hroom
+    refine ⟨loc, o, value, ?_, ?_, ?_, rfl, ?_, ?_⟩
+    · simp [deltaBlockLoop, absRun]
+    · simp [absRun]
+    · simp [absRun]
+    · simp [absRun]
+    · intro _; simp [absRun]; exact hc
+  | cons m rest ih =>
+    intro i loc o value c hlay hc hroom
+    obtain ⟨hw, hw28, hlen, hzero, hdata, hrest⟩ := hlay
+    have hLlen : o.L.length = o.slots.size := by simp [DOut.L]
+    simp only [List.length_cons]
+    -- the three kinds of step all have this shape
+    have key : ∀ (o1 : DOut) (v1 : Int) (loc1 : Nat),
+        o1.L = o.L.take o.pos ++ chainOut ib md value (m.2.take (min vpm c)) ++ o.L.drop (o.pos + min vpm c) →
+        o1.pos = o.pos + min vpm c → o1.slots.size = o.slots.size →
+        loc1 = loc + miniBytes vpm m →
+        (¬ c ≤ vpm → v1 = chainVal md value (m.2.take (min vpm c))) →
+        deltaBlockLoop buf ib vpm md bwLoc (rest.length + 1) i loc o value (c : Int) =
+          (if c ≤ vpm then .ok (loc1, o1, v1, (c : Int) - (min vpm c : Nat), true)
+           else deltaBlockLoop buf ib vpm md bwLoc rest.length (i + 1) loc1 o1 v1 ((c : Int) - (min vpm c : Nat))) →
+        ∃ loc' o' value', deltaBlockLoop buf ib vpm md bwLoc (rest.length + 1) i loc o value (c : Int)
+            = .ok (loc', o', value', ((absRun ib md vpm (m :: rest) value c).2.2.1 : Int), (absRun ib md vpm (m :: rest) value c).2.2.2) ∧
+          o'.L = o.L.take o.pos ++ (absRun ib md vpm (m :: rest) value c).1 ++ o.L.drop (o.pos + (absRun ib md vpm (m :: rest) value c).1.length) ∧
+          o'.pos = o.pos + (absRun ib md vpm (m :: rest) value c).1.length ∧ o'.slots.size = o.slots.size ∧
+          (absRun ib md vpm (m :: rest) value c).1.length + (absRun ib md vpm (m :: rest) value c).2.2.1 = c ∧
+          ((absRun ib md vpm (m :: rest) value c).2.2.2 = false →
+            value' = (absRun ib md vpm (m :: rest) value c).2.1 ∧ loc' = loc + ((m :: rest).map (miniBytes vpm)).sum ∧
+            1 ≤ (absRun ib md vpm (m :: rest) value c).2.2.1) := by
+      intro o1 v1 loc1 l1 p1 s1 hloc1 hv1 e1
+      have hco : (chainOut ib md value (m.2.take (min vpm c))).length = min vpm c := by
+        rw [chainOut_length, List.length_take, hlen]; omega
+      by_cases hcv : c ≤ vpm
+      · rw [if_pos hcv] at e1
+        have hmin : min vpm c = c := by omega
+        refine ⟨loc1, o1, v1, ?_, ?_, ?_, s1, ?_, ?_⟩
+        · rw [e1]; simp only [absRun, hcv, if_true, hmin]; simp
+        · simp only [absRun, hcv, if_true, hco]; exact l1
+        · simp only [absRun, hcv, if_true, hco]; exact p1
+        · simp only [absRun, hcv, if_true, hco]; omega
+        · simp only [absRun, hcv, if_true]; intro h; cases h
+      · rw [if_neg hcv] at e1
+        have hmin : min vpm c = vpm := by omega
+        have hcast : ((c : Int) - ((min vpm c : Nat) : Int)) = ((c - min vpm c : Nat) : Int) := by omega
+        rw [hcast] at e1
+        rw [hloc1] at e1
+        have hrest' := hrest
+        obtain ⟨loc', o', value', r1, r2, r3, r4, r5, r6⟩ := ih (i + 1) (loc + miniBytes vpm m) o1 v1 (c - min vpm c) hrest'
+          (by omega) (by rw [p1, s1]; omega)
+        have hv := hv1 hcv
+        rw [hv] at r1 r2 r3 r5 r6 e1
+        refine ⟨loc', o', value', ?_, ?_, ?_, ?_, ?_, ?_⟩
+        · rw [e1, r1]; simp only [absRun, hcv, if_false]
+        · rw [r2, l1, p1]
+          simp only [absRun, hcv, if_false, List.length_append, hco]
+          exact splice_splice o.L _ _ o.pos (min vpm c) _ hco (by rw [hLlen]; omega)
+        · rw [r3, p1]; simp only [absRun, hcv, if_false, List.length_append, hco]; omega
+        · rw [r4, s1]
+        · simp only [absRun, hcv, if_false, List.length_append, hco]; omega
+        · simp only [absRun, hcv, if_false]
+          intro hd
+          obtain ⟨a, b, c'⟩ := r6 hd
+          refine ⟨a, ?_, c'⟩
+          rw [b]; simp [List.sum_cons, Nat.add_assoc]
+    by_cases hw0 : m.1 = 0
+    · rw [hw0] at hw
+      obtain ⟨o1, l1, p1, s1, e1⟩ := deltaBlockLoop_step_zero buf ib vpm md bwLoc rest.length i loc o value c hw hc hroom
+      have hm2 := hzero hw0
+      have hmb : miniBytes vpm m = 0 := by simp [miniBytes, hw0]
+      have htk : m.2.take (min vpm c) = List.replicate (min vpm c) 0 := by
+        rw [hm2, List.take_replicate, Nat.min_eq_left (Nat.min_le_left vpm c)]
+      rw [← htk] at l1 e1
+      exact key o1 _ loc l1 p1 s1 (by rw [hmb]; rfl) (fun _ => rfl) e1
+    · by_cases hc1 : c = 1
+      · subst hc1
+        obtain ⟨o1, v1, l1, p1, s1, e1⟩ := deltaBlockLoop_step_last buf ib vpm md bwLoc rest.length i loc m.1 o value hw hw0 hvpm hroom
+        have hmin : min vpm 1 = 1 := by omega
+        have htk : chainOut ib md value (m.2.take (min vpm 1)) = [wrapU ib value] := by
+          rw [hmin]
+          cases hm : m.2 with
+          | nil => rw [hm] at hlen; simp at hlen; omega
+          | cons d t => simp [chainOut]
+        have hle : (1 : Nat) ≤ vpm := hvpm
+        -- c = 1 ≤ vpm: done after this value; the bytes of the miniblock are not consumed, which no longer matters
+        have hcv : (1 : Nat) ≤ vpm := hvpm
+        refine ⟨loc, o1, v1, ?_, ?_, ?_, s1, ?_, ?_⟩
+        · have e1' : deltaBlockLoop buf ib vpm md bwLoc (rest.length + 1) i loc o value ((1 : Nat) : Int) = .ok (loc, o1, v1, 0, true) := by
+            simpa using e1
+          rw [e1']; simp only [absRun, hcv, if_true, hmin]; simp
+        · simp only [absRun, hcv, if_true, htk]; simpa using l1
+        · simp only [absRun, hcv, if_true, htk]; simpa using p1
+        · simp only [absRun, hcv, if_true]
+          rw [htk, hmin]; rfl
+        · simp only [absRun, hcv, if_true]; intro h; cases h
+      · -- width 1..28, at least two values to come
+        have hc2 : 2 ≤ c := by omega
+        obtain ⟨hb, hvals⟩ := hdata hw0
+        obtain ⟨o1, l1, p1, s1, e1⟩ := deltaBlockLoop_step buf hbytes ib vpm hib md bwLoc rest.length i loc m.1 o value c
+          hw (by omega) hw28 hb hc2 hroom
+        rw [hvals] at l1 e1
+        have hmb : miniBytes vpm m = (vpm * m.1 + 7) / 8 := by simp [miniBytes, hw0]
+        exact key o1 _ (loc + (vpm * m.1 + 7) / 8) l1 p1 s1 (by rw [hmb]) (fun _ => rfl) e1
+
+
+abbrev Block := Int × List Mini
+
+/-- the buffer holds, from `loc` on, the blocks: zigzag varint of the minimum delta, `mpb` width bytes,
+    the packed miniblocks -/
+def BlockLayout (buf : List Nat) (vpm mpb : Nat) : Nat → List Block → Prop
+  | _, [] => True
+  | loc, b :: rest =>
+    ∃ u len, readUvarint buf loc = .ok (u, loc + len) ∧ zigzagLong u = b.1 ∧ b.2.length = mpb ∧
+      Layout buf vpm (loc + len) 0 (loc + len + mpb) b.2 ∧
+      BlockLayout buf vpm mpb (loc + len + mpb + (b.2.map (miniBytes vpm)).sum) rest
+
+/-- all blocks: the values stored -/
+def absBlocks (ib vpm : Nat) : List Block → Int → Nat → List Nat
+  | [], _, _ => []
+  | b :: rest, v, c =>
+    if (absRun ib b.1 vpm b.2 v c).2.2.2 then (absRun ib b.1 vpm b.2 v c).1
+    else (absRun ib b.1 vpm b.2 v c).1 ++ absBlocks ib vpm rest (absRun ib b.1 vpm b.2 v c).2.1 (absRun ib b.1 vpm b.2 v c).2.2.1
+
+theorem layout_len (buf : List Nat) (vpm bwLoc : Nat) : ∀ (ms : List Mini) (i loc : Nat), Layout buf vpm bwLoc i loc ms →
+    ∀ m ∈ ms, m.2.length = vpm := by
+  intro ms
+  induction ms with
+  | nil => intro i loc _ m hm; cases hm
+  | cons a rest ih =>
+    intro i loc h m hm
+    obtain ⟨_, _, hl, _, _, hr⟩ := h
+    rcases List.mem_cons.mp hm with rfl | hm'
+    · exact hl
+    · exact ih _ _ hr m hm'
+
+theorem absRun_facts (ib : Nat) (md : Int) (vpm : Nat) (hvpm : 1 ≤ vpm) : ∀ (ms : List Mini) (v : Int) (c : Nat),
+    (∀ m ∈ ms, m.2.length = vpm) → 1 ≤ c →
+    ((absRun ib md vpm ms v c).2.2.2 = true → (absRun ib md vpm ms v c).2.2.1 = 0) ∧
+    ((absRun ib md vpm ms v c).2.2.2 = false → (absRun ib md vpm ms v c).1.length = vpm * ms.length) := by
+  intro ms
+  induction ms with
+  | nil => intro v c _ _; simp [absRun]
+  | cons m rest ih =>
+    intro v c hl hc
+    have hco : (chainOut ib md v (m.2.take (min vpm c))).length = min vpm c := by
+      rw [chainOut_length, List.length_take, hl m List.mem_cons_self]; omega
+    by_cases hcv : c ≤ vpm
+    · simp only [absRun, hcv, if_true]
+      constructor
+      · intro _; omega
+      · intro h; cases h
+    · simp only [absRun, hcv, if_false]
+      obtain ⟨a, b⟩ := ih (chainVal md v (m.2.take (min vpm c))) (c - min vpm c) (fun x hx => hl x (List.mem_cons_of_mem _ hx)) (by omega)
+      constructor
+      · exact a
+      · intro h
+        rw [List.length_append, hco, b h, List.length_cons]
+        have : min vpm c = vpm := by omega
+        rw [this]; ring
+
+theorem deltaOuter_run (buf : List Nat) (hbytes : ∀ b ∈ buf, b < 256) (ib vpm mpb : Nat) (hib : 32 ≤ ib) (hvpm : 1 ≤ vpm)
+    (hmpb : 1 ≤ mpb) : ∀ (blocks : List Block) (fuel loc : Nat) (o : DOut) (value : Int) (c : Nat),
+    BlockLayout buf vpm mpb loc blocks → blocks.length < fuel → 1 ≤ c → c ≤ vpm * mpb * blocks.length →
+    o.pos + c = o.slots.size →
+    ∃ loc' o', deltaOuter buf ib mpb vpm fuel loc o value (c : Int) = .ok (loc', o') ∧
+      o'.L = o.L.take o.pos ++ absBlocks ib vpm blocks value c ++ o.L.drop (o.pos + c) ∧
+      (absBlocks ib vpm blocks value c).length = c := by
+  intro blocks
+  induction blocks with
+  | nil => intro fuel loc o value c _ _ hc hle _; simp at hle; omega
+  | cons b rest ih =>
+    intro fuel loc o value c hlay hfuel hc hle hroom
+    obtain ⟨f, rfl⟩ : ∃ f, fuel = f + 1 := ⟨fuel - 1, by simp at hfuel; omega⟩
+    obtain ⟨u, len, hrd, hzz, hlen, hl, hrest⟩ := hlay
+    obtain ⟨loc1, o1, v1, r1, r2, r3, r4, r5, r6⟩ :=
+      deltaBlockLoop_run buf hbytes ib vpm hib hvpm b.1 (loc + len) b.2 0 (loc + len + mpb) o value c hl hc hroom
+    rw [hlen] at r1
+    obtain ⟨fa, fb⟩ := absRun_facts ib b.1 vpm hvpm b.2 value c (layout_len buf vpm _ b.2 _ _ hl) hc
+    have hmp : ¬ (mpb < 1) := by omega
+    have hstep : deltaOuter buf ib mpb vpm (f + 1) loc o value (c : Int) =
+        (if (absRun ib b.1 vpm b.2 value c).2.2.2 then .ok (loc1, o1)
+         else deltaOuter buf ib mpb vpm f loc1 o1 v1 ((absRun ib b.1 vpm b.2 value c).2.2.1 : Int)) := by
+      conv => lhs; unfold deltaOuter
+      simp only [hrd, bind, Except.bind, hzz, hmp, if_false, r1]
+    rw [hstep]
+    cases hdone : (absRun ib b.1 vpm b.2 value c).2.2.2 with
+    | true =>
+      simp only [if_true]
+      have hc0 := fa hdone
+      have hlenc : (absRun ib b.1 vpm b.2 value c).1.length = c := by omega
+      refine ⟨loc1, o1, rfl, ?_, ?_⟩
+      · simp only [absBlocks, hdone, if_true]
+        rw [r2, hlenc]
+      · simp only [absBlocks, hdone, if_true]; exact hlenc
+    | false =>
+      simp only [Bool.false_eq_true, if_false]
+      obtain ⟨hv1, hloc1, hc1⟩ := r6 hdone
+      have hl1 := fb hdone
+      rw [hlen] at hl1
+      have hc' : (absRun ib b.1 vpm b.2 value c).2.2.1 = c - vpm * mpb := by omega
+      have hmul : vpm * mpb * (rest.length + 1) = vpm * mpb * rest.length + vpm * mpb := by ring
+      obtain ⟨loc', o', e1, e2, e3⟩ := ih f loc1 o1 v1 (absRun ib b.1 vpm b.2 value c).2.2.1
+        (by rw [hloc1]; exact hrest) (by simp at hfuel; omega) hc1
+        (by rw [hc']; simp only [List.length_cons] at hle; rw [hmul] at hle; omega)
+        (by rw [r3, r4]; omega)
+      refine ⟨loc', o', e1, ?_, ?_⟩
+      · rw [e2, r2, r3]
+        simp only [absBlocks, hdone, Bool.false_eq_true, if_false]
+        rw [hv1]
+        have hLlen : o.L.length = o.slots.size := by simp [DOut.L]
+        have := splice_splice o.L (absRun ib b.1 vpm b.2 value c).1
+          (absBlocks ib vpm rest (absRun ib b.1 vpm b.2 value c).2.1 (absRun ib b.1 vpm b.2 value c).2.2.1)
+          o.pos (absRun ib b.1 vpm b.2 value c).1.length (absRun ib b.1 vpm b.2 value c).2.2.1 rfl (by rw [hLlen]; omega)
+        rw [this]
+        congr 2
+        omega
+      · simp only [absBlocks, hdone, Bool.false_eq_true, if_false, List.length_append]
+        rw [← hv1, e3]; omega
+
+
+theorem wrapS64_small (n : Nat) (h : n < 2 ^ 63) : wrapS 64 (n : Int) = n :=
+  wrapS_small 64 n (by norm_num) (by simpa using h)
+
+/-- **`delta_binary_unpack` on a whole stream (kernel side)**: header (block size, miniblocks per
+    block, count, first value), then blocks of miniblocks of any widths 0..28 — the output array holds
+    the running values of the abstract chain semantics `absBlocks`, nothing else, no fault. -/
+theorem deltaBinaryUnpack_abs (buf : List Nat) (hbytes : ∀ b ∈ buf, b < 256) (loc0 l1 l2 l3 l4 : Nat) (longval : Bool)
+    (blockSize mpb cnt v0 : Nat) (blocks : List Block)
+    (h1 : readUvarint buf loc0 = .ok (blockSize, l1)) (h2 : readUvarint buf l1 = .ok (mpb, l2))
+    (h3 : readUvarint buf l2 = .ok (cnt, l3)) (h4 : readUvarint buf l3 = .ok (v0, l4))
+    (hmpb : 1 ≤ mpb) (hvpm : 1 ≤ blockSize / mpb) (hcnt1 : 1 ≤ cnt) (hcnt : cnt < 2 ^ 63)
+    (hlay : BlockLayout buf (blockSize / mpb) mpb l4 blocks) (hfuel : blocks.length ≤ buf.length)
+    (hroom : cnt ≤ blockSize / mpb * mpb * blocks.length) :
+    ∃ slots loc', deltaBinaryUnpack buf loc0 cnt longval = .ok (slots, loc') ∧
+      slots.toList = absBlocks (if longval then 64 else 32) (blockSize / mpb) blocks (zigzagLong v0) cnt := by
+  have hib : 32 ≤ (if longval then 64 else 32) := by split <;> omega
+  have hm0 : ¬ (mpb = 0) := by omega
+  obtain ⟨loc', o', e1, e2, e3⟩ := deltaOuter_run buf hbytes (if longval then 64 else 32) (blockSize / mpb) mpb hib hvpm hmpb
+    blocks (buf.length + 2) l4 { slots := Array.replicate cnt 0, pos := 0 } (zigzagLong v0) cnt hlay (by omega) hcnt1 hroom
+    (by simp)
+  refine ⟨o'.slots, loc', ?_, ?_⟩
+  · simp only [deltaBinaryUnpack, h1, h2, h3, h4, bind, Except.bind, hm0, if_false, wrapS64_small cnt hcnt, e1]
+  · have : o'.L = o'.slots.toList := rfl
+    rw [← this, e2]
+    simp only [DOut.L, List.take_zero, List.nil_append, Nat.zero_add]
+    have hl : (Array.replicate cnt 0 : Array Nat).toList.length = cnt := by simp
+    rw [List.drop_of_length_le (by rw [hl]), List.append_nil]
+
+
+/-- a miniblock as a conforming writer emits it -/
+structure MiniOk (vpm : Nat) (m : Mini) : Prop where
+  w28 : m.1 ≤ 28
+  len : m.2.length = vpm
+  zero : m.1 = 0 → m.2 = List.replicate vpm 0
+  small : ∀ d ∈ m.2, d < 2 ^ m.1
+
+def encMini (m : Mini) : List Nat := if m.1 = 0 then [] else packLE m.1 m.2
+
+theorem encMini_length (vpm : Nat) (m : Mini) (h : MiniOk vpm m) : (encMini m).length = miniBytes vpm m := by
+  unfold encMini miniBytes
+  split
+  · rfl
+  · rw [packLE_length, h.len]
+
+theorem mid_drop_take (P X S : List Nat) : ((P ++ X ++ S).drop P.length).take X.length = X := by
+  rw [List.append_assoc, List.drop_left' rfl, List.take_left' rfl]
+
+theorem mid_getElem? (P X S : List Nat) (j : Nat) (hj : j < X.length) : (P ++ X ++ S)[P.length + j]? = X[j]? := by
+  rw [List.append_assoc, List.getElem?_append_right (by omega), Nat.add_sub_cancel_left, List.getElem?_append_left hj]
+
+theorem layout_concrete (vpm : Nat) (A Z : List Nat) (all : List Mini) (hok : ∀ m ∈ all, MiniOk vpm m) :
+    ∀ (todo done : List Mini), all = done ++ todo →
+      Layout (A ++ all.map (·.1) ++ all.flatMap encMini ++ Z) vpm A.length done.length
+        (A.length + all.length + (done.flatMap encMini).length) todo := by
+  intro todo
+  induction todo with
+  | nil => intro done _; trivial
+  | cons m rest ih =>
+    intro done hall
+    have hm : MiniOk vpm m := hok m (by rw [hall]; simp)
+    set buf := A ++ all.map (·.1) ++ all.flatMap encMini ++ Z with hbuf
+    refine ⟨?_, hm.w28, hm.len, hm.zero, ?_, ?_⟩
+    · -- the width byte
+      have hW : (all.map (·.1))[done.length]? = some m.1 := by
+        rw [hall, List.map_append, List.getElem?_append_right (by simp)]
+        simp
+      have := mid_getElem? A (all.map (·.1)) (all.flatMap encMini ++ Z) done.length (by rw [hall]; simp)
+      rw [hbuf, List.append_assoc (A ++ all.map (·.1)), this, hW]
+    · intro hw0
+      -- the packed values sit at `loc`
+      have hD : all.flatMap encMini = done.flatMap encMini ++ encMini m ++ rest.flatMap encMini := by
+        rw [hall]; simp [List.flatMap_append, List.append_assoc]
+      have hpre : (A ++ all.map (·.1) ++ done.flatMap encMini).length = A.length + all.length + (done.flatMap encMini).length := by
+        simp [List.length_append]; omega
+      have hb2 : buf = (A ++ all.map (·.1) ++ done.flatMap encMini) ++ encMini m ++ (rest.flatMap encMini ++ Z) := by
+        rw [hbuf, hD]; simp [List.append_assoc]
+      have henc : encMini m = packLE m.1 m.2 := by simp [encMini, hw0]
+      have hlen : (encMini m).length = (vpm * m.1 + 7) / 8 := by rw [henc, packLE_length, hm.len]
+      constructor
+      · rw [hb2, ← hpre]
+        simp only [List.length_append, hlen]
+        omega
+      · have hdt := mid_drop_take (A ++ all.map (·.1) ++ done.flatMap encMini) (encMini m) (rest.flatMap encMini ++ Z)
+        rw [← hb2, hpre, hlen] at hdt
+        rw [stream_values_eq_unpackLE buf _ m.1 vpm ((vpm * m.1 + 7) / 8)
+          (by rw [hb2, ← hpre]; simp only [List.length_append, hlen]; omega) (by omega)]
+        rw [hdt, henc]
+        have := unpackLE_packLE m.1 m.2 hm.small
+        rw [hm.len] at this
+        exact this
+    · have := ih (done ++ [m]) (by rw [hall]; simp)
+      have e1 : (done ++ [m]).length = done.length + 1 := by simp
+      have e2 : ((done ++ [m]).flatMap encMini).length = (done.flatMap encMini).length + miniBytes vpm m := by
+        simp [List.flatMap_append, encMini_length vpm m hm]
+      rw [e1, e2] at this
+      rw [← Nat.add_assoc] at this
+      exact this
+
+
+def okI64 (n : Int) : Prop := -(2 ^ 63 : Int) ≤ n ∧ n < (2 ^ 63 : Int)
+
+theorem zz_lt64 (n : Int) (h : okI64 n) : zigzagEnc n < 2 ^ 64 := by
+  unfold zigzagEnc
+  obtain ⟨h1, h2⟩ := h
+  split
+  · have : 2 * n < 2 ^ 64 := by omega
+    omega
+  · omega
+
+theorem zz_back64 (n : Int) (h : okI64 n) : zigzagLong (zigzagEnc n) = n := by
+  rw [zigzagLong_eq _ (zz_lt64 n h), zigzag_rt]
+
+def encBlockP (b : Block) : List Nat := uvarintEnc (zigzagEnc b.1) ++ b.2.map (·.1) ++ b.2.flatMap encMini
+
+structure BlockOk (vpm mpb : Nat) (b : Block) : Prop where
+  md : okI64 b.1
+  len : b.2.length = mpb
+  minis : ∀ m ∈ b.2, MiniOk vpm m
+
+theorem flatMap_encMini_length (vpm : Nat) (ms : List Mini) (h : ∀ m ∈ ms, MiniOk vpm m) :
+    (ms.flatMap encMini).length = (ms.map (miniBytes vpm)).sum := by
+  induction ms with
+  | nil => rfl
+  | cons m t ih =>
+    simp only [List.flatMap_cons, List.length_append, List.map_cons, List.sum_cons,
+      encMini_length vpm m (h m List.mem_cons_self), ih (fun x hx => h x (List.mem_cons_of_mem _ hx))]
+
+/-- the blocks as bytes ⇒ the layout the kernel theorem needs -/
+theorem blockLayout_concrete (vpm mpb : Nat) (post : List Nat) : ∀ (blocks : List Block) (pre : List Nat),
+    (∀ b ∈ blocks, BlockOk vpm mpb b) →
+    BlockLayout (pre ++ blocks.flatMap encBlockP ++ post) vpm mpb pre.length blocks := by
+  intro blocks
+  induction blocks with
+  | nil => intro pre _; trivial
+  | cons b rest ih =>
+    intro pre hok
+    have hb := hok b List.mem_cons_self
+    set x := zigzagEnc b.1 with hx
+    have hx64 : x < 2 ^ 64 := zz_lt64 b.1 hb.md
+    have hbuf : pre ++ (b :: rest).flatMap encBlockP ++ post
+        = (pre ++ uvarintEnc x) ++ b.2.map (·.1) ++ b.2.flatMap encMini ++ (rest.flatMap encBlockP ++ post) := by
+      simp [List.flatMap_cons, encBlockP, List.append_assoc, hx]
+    have hbuf2 : pre ++ (b :: rest).flatMap encBlockP ++ post
+        = pre ++ uvarintEnc x ++ (b.2.map (·.1) ++ b.2.flatMap encMini ++ (rest.flatMap encBlockP ++ post)) := by
+      rw [hbuf]; simp [List.append_assoc]
+    refine ⟨x, uvarintLen x, ?_, zz_back64 b.1 hb.md, hb.len, ?_, ?_⟩
+    · rw [hbuf2]; exact readUvarint_enc x hx64 pre _
+    · have := layout_concrete vpm (pre ++ uvarintEnc x) (rest.flatMap encBlockP ++ post) b.2 hb.minis b.2 [] rfl
+      rw [← hbuf] at this
+      simp only [List.length_append, List.length_nil, List.flatMap_nil, Nat.add_zero, hb.len] at this
+      exact this
+    · have := ih (pre ++ encBlockP b) (fun y hy => hok y (List.mem_cons_of_mem _ hy))
+      have e1 : pre ++ encBlockP b ++ rest.flatMap encBlockP ++ post = pre ++ (b :: rest).flatMap encBlockP ++ post := by
+        simp [List.flatMap_cons, List.append_assoc]
+      have e2 : (pre ++ encBlockP b).length = pre.length + uvarintLen x + mpb + (b.2.map (miniBytes vpm)).sum := by
+        simp only [encBlockP, List.length_append, List.length_map, hb.len, flatMap_encMini_length vpm b.2 hb.minis, ← hx]
+        unfold uvarintLen; omega
+      rw [e1, e2] at this
+      exact this
+
+
+/-- a DELTA_BINARY_PACKED stream as bytes: header, then blocks -/
+def encStreamP (blockSize mpb cnt : Nat) (first : Int) (blocks : List Block) : List Nat :=
+  uvarintEnc blockSize ++ uvarintEnc mpb ++ uvarintEnc cnt ++ uvarintEnc (zigzagEnc first) ++ blocks.flatMap encBlockP
+
+theorem bytes_lt_of_parts (pre mid post : List Nat) (h1 : ∀ b ∈ pre, b < 256) (h2 : ∀ b ∈ mid, b < 256) (h3 : ∀ b ∈ post, b < 256) :
+    ∀ b ∈ pre ++ mid ++ post, b < 256 := by
+  intro b hb
+  rcases List.mem_append.mp hb with h | h
+  · rcases List.mem_append.mp h with h | h
+    · exact h1 b h
+    · exact h2 b h
+  · exact h3 b h
+
+/-- **`delta_binary_unpack` on every stream a conforming writer can emit with miniblock widths ≤ 28**
+    (any block shape, any mixture of widths incl. 0, any count that the blocks cover, anywhere in a
+    buffer, whatever follows): no fault, and the output holds the running values `absBlocks`. -/
+theorem deltaBinaryUnpack_concrete (pre post : List Nat) (longval : Bool) (blockSize mpb cnt : Nat) (first : Int) (blocks : List Block)
+    (hbs : blockSize < 2 ^ 64) (hmpb64 : mpb < 2 ^ 64) (hfirst : okI64 first)
+    (hmpb : 1 ≤ mpb) (hvpm : 1 ≤ blockSize / mpb) (hcnt1 : 1 ≤ cnt) (hcnt : cnt < 2 ^ 63)
+    (hblocks : ∀ b ∈ blocks, BlockOk (blockSize / mpb) mpb b)
+    (hroom : cnt ≤ blockSize / mpb * mpb * blocks.length)
+    (hbytes : ∀ b ∈ pre ++ encStreamP blockSize mpb cnt first blocks ++ post, b < 256) :
+    ∃ slots loc', deltaBinaryUnpack (pre ++ encStreamP blockSize mpb cnt first blocks ++ post) pre.length cnt longval = .ok (slots, loc') ∧
+      slots.toList = absBlocks (if longval then 64 else 32) (blockSize / mpb) blocks first cnt := by
+  set buf := pre ++ encStreamP blockSize mpb cnt first blocks ++ post with hbuf
+  have e1 : buf = pre ++ uvarintEnc blockSize ++ (uvarintEnc mpb ++ uvarintEnc cnt ++ uvarintEnc (zigzagEnc first) ++ blocks.flatMap encBlockP ++ post) := by
+    simp [hbuf, encStreamP, List.append_assoc]
+  have e2 : buf = (pre ++ uvarintEnc blockSize) ++ uvarintEnc mpb ++ (uvarintEnc cnt ++ uvarintEnc (zigzagEnc first) ++ blocks.flatMap encBlockP ++ post) := by
+    simp [hbuf, encStreamP, List.append_assoc]
+  have e3 : buf = (pre ++ uvarintEnc blockSize ++ uvarintEnc mpb) ++ uvarintEnc cnt ++ (uvarintEnc (zigzagEnc first) ++ blocks.flatMap encBlockP ++ post) := by
+    simp [hbuf, encStreamP, List.append_assoc]
+  have e4 : buf = (pre ++ uvarintEnc blockSize ++ uvarintEnc mpb ++ uvarintEnc cnt) ++ uvarintEnc (zigzagEnc first) ++ (blocks.flatMap encBlockP ++ post) := by
+    simp [hbuf, encStreamP, List.append_assoc]
+  have e5 : buf = (pre ++ uvarintEnc blockSize ++ uvarintEnc mpb ++ uvarintEnc cnt ++ uvarintEnc (zigzagEnc first)) ++ blocks.flatMap encBlockP ++ post := by
+    simp [hbuf, encStreamP, List.append_assoc]
+  have r1 := readUvarint_enc blockSize hbs pre (uvarintEnc mpb ++ uvarintEnc cnt ++ uvarintEnc (zigzagEnc first) ++ blocks.flatMap encBlockP ++ post)
+  rw [← e1] at r1
+  have r2 := readUvarint_enc mpb hmpb64 (pre ++ uvarintEnc blockSize) (uvarintEnc cnt ++ uvarintEnc (zigzagEnc first) ++ blocks.flatMap encBlockP ++ post)
+  rw [← e2] at r2
+  have r3 := readUvarint_enc cnt (by omega) (pre ++ uvarintEnc blockSize ++ uvarintEnc mpb) (uvarintEnc (zigzagEnc first) ++ blocks.flatMap encBlockP ++ post)
+  rw [← e3] at r3
+  have r4 := readUvarint_enc (zigzagEnc first) (zz_lt64 first hfirst) (pre ++ uvarintEnc blockSize ++ uvarintEnc mpb ++ uvarintEnc cnt) (blocks.flatMap encBlockP ++ post)
+  rw [← e4] at r4
+  have hlay := blockLayout_concrete (blockSize / mpb) mpb post blocks
+    (pre ++ uvarintEnc blockSize ++ uvarintEnc mpb ++ uvarintEnc cnt ++ uvarintEnc (zigzagEnc first)) hblocks
+  rw [← e5] at hlay
+  have hl1 : (pre ++ uvarintEnc blockSize).length = pre.length + uvarintLen blockSize := by simp [uvarintLen]
+  have hl2 : (pre ++ uvarintEnc blockSize ++ uvarintEnc mpb).length = pre.length + uvarintLen blockSize + uvarintLen mpb := by
+    simp [uvarintLen]; omega
+  have hl3 : (pre ++ uvarintEnc blockSize ++ uvarintEnc mpb ++ uvarintEnc cnt).length
+      = pre.length + uvarintLen blockSize + uvarintLen mpb + uvarintLen cnt := by simp [uvarintLen]; omega
+  have hl4 : (pre ++ uvarintEnc blockSize ++ uvarintEnc mpb ++ uvarintEnc cnt ++ uvarintEnc (zigzagEnc first)).length
+      = pre.length + uvarintLen blockSize + uvarintLen mpb + uvarintLen cnt + uvarintLen (zigzagEnc first) := by simp [uvarintLen]; omega
+  rw [hl1] at r2
+  rw [hl2] at r3
+  rw [hl3] at r4
+  rw [hl4] at hlay
+  -- every block takes at least one byte, so there are no more blocks than bytes
+  have hfuel : blocks.length ≤ buf.length := by
+    have gen : ∀ bl : List Block, bl.length ≤ (bl.flatMap encBlockP).length := by
+      intro bl
+      induction bl with
+      | nil => simp
+      | cons b t ih =>
+        simp only [List.flatMap_cons, List.length_append, List.length_cons, encBlockP]
+        have := uvarintEnc_length_pos (zigzagEnc b.1)
+        omega
+    have := gen blocks
+    rw [e5]; simp only [List.length_append]; omega
+  obtain ⟨slots, loc', k1, k2⟩ := deltaBinaryUnpack_abs buf hbytes pre.length _ _ _ _ longval blockSize mpb cnt (zigzagEnc first) blocks
+    r1 r2 r3 r4 hmpb hvpm hcnt1 hcnt hlay hfuel hroom
+  rw [zz_back64 first hfirst] at k2
+  exact ⟨slots, loc', k1, k2⟩
+
+
+/-- the deltas of a stream in order, each with the minimum delta of its block -/
+def flatMinis (md : Int) (ms : List Mini) : List (Int × Nat) := ms.flatMap (fun m => m.2.map (fun d => (md, d)))
+def flatE (blocks : List Block) : List (Int × Nat) := blocks.flatMap (fun b => flatMinis b.1 b.2)
+
+/-- the kernel's running values over a delta sequence: stored value, then 64-bit wrapping add -/
+def kernChainP (ib : Nat) : Int → List (Int × Nat) → List Nat
+  | _, [] => []
+  | v, e :: es => wrapU ib v :: kernChainP ib (wrapS 64 (v + e.1 + (e.2 : Int))) es
+def kernValP : Int → List (Int × Nat) → Int
+  | v, [] => v
+  | v, e :: es => kernValP (wrapS 64 (v + e.1 + (e.2 : Int))) es
+
+theorem kernChainP_append (ib : Nat) (v : Int) (a b : List (Int × Nat)) :
+    kernChainP ib v (a ++ b) = kernChainP ib v a ++ kernChainP ib (kernValP v a) b := by
+  induction a generalizing v with
+  | nil => rfl
+  | cons e t ih => simp [kernChainP, kernValP, ih]
+
+theorem kernValP_append (v : Int) (a b : List (Int × Nat)) : kernValP v (a ++ b) = kernValP (kernValP v a) b := by
+  induction a generalizing v with
+  | nil => rfl
+  | cons e t ih => simp [kernValP, ih]
+
+theorem chainOut_eq (ib : Nat) (md : Int) (v : Int) (ds : List Nat) :
+    chainOut ib md v ds = kernChainP ib v (ds.map (fun d => (md, d))) := by
+  induction ds generalizing v with
+  | nil => rfl
+  | cons d t ih => simp [chainOut, kernChainP, ih]
+
+theorem chainVal_eq (md : Int) (v : Int) (ds : List Nat) : chainVal md v ds = kernValP v (ds.map (fun d => (md, d))) := by
+  induction ds generalizing v with
+  | nil => rfl
+  | cons d t ih => simp [chainVal, kernValP, ih]
+
+theorem take_append_long {α} (A B : List α) (c : Nat) (h : A.length ≤ c) : (A ++ B).take c = A ++ B.take (c - A.length) := by
+  rw [List.take_append, List.take_of_length_le h]
+
+theorem absRun_flat (ib : Nat) (md : Int) (vpm : Nat) (hvpm : 1 ≤ vpm) : ∀ (ms : List Mini) (v : Int) (c : Nat),
+    (∀ m ∈ ms, m.2.length = vpm) → 1 ≤ c →
+    (absRun ib md vpm ms v c).1 = kernChainP ib v ((flatMinis md ms).take c) ∧
+    ((absRun ib md vpm ms v c).2.2.2 = false →
+      (absRun ib md vpm ms v c).2.1 = kernValP v (flatMinis md ms) ∧
+      (absRun ib md vpm ms v c).2.2.1 = c - vpm * ms.length ∧ vpm * ms.length < c) := by
+  intro ms
+  induction ms with
+  | nil =>
+    intro v c _ hc
+    simp [absRun, flatMinis, kernChainP, kernValP]; omega
+  | cons m rest ih =>
+    intro v c hl hc
+    have hm : m.2.length = vpm := hl m List.mem_cons_self
+    have hflat : flatMinis md (m :: rest) = m.2.map (fun d => (md, d)) ++ flatMinis md rest := by
+      simp [flatMinis]
+    have hlenA : (m.2.map (fun d => (md, d))).length = vpm := by simp [hm]
+    by_cases hcv : c ≤ vpm
+    · have hmin : min vpm c = c := by omega
+      simp only [absRun, hcv, if_true, hmin]
+      refine ⟨?_, fun h => by cases h⟩
+      rw [chainOut_eq, hflat, List.take_append_of_le_length (by rw [hlenA]; exact hcv), List.map_take]
+    · have hmin : min vpm c = vpm := by omega
+      simp only [absRun, hcv, if_false, hmin]
+      obtain ⟨i1, i2⟩ := ih (chainVal md v (m.2.take vpm)) (c - vpm) (fun x hx => hl x (List.mem_cons_of_mem _ hx)) (by omega)
+      have htk : m.2.take vpm = m.2 := List.take_of_length_le (by omega)
+      rw [htk] at i1 i2 ⊢
+      constructor
+      · rw [i1, chainOut_eq, chainVal_eq, hflat, take_append_long _ _ c (by rw [hlenA]; omega), hlenA, kernChainP_append]
+      · intro hd
+        obtain ⟨a, b, c'⟩ := i2 hd
+        refine ⟨?_, ?_, ?_⟩
+        · rw [a, chainVal_eq, hflat, kernValP_append]
+        · rw [b, List.length_cons]; 
+          have : vpm * (rest.length + 1) = vpm * rest.length + vpm := by ring
+          rw [this]; omega
+        · rw [List.length_cons]
+          have : vpm * (rest.length + 1) = vpm * rest.length + vpm := by ring
+          rw [this]; omega
+
+theorem absRun_sum (ib : Nat) (md : Int) (vpm : Nat) : ∀ (ms : List Mini) (v : Int) (c : Nat),
+    (∀ m ∈ ms, m.2.length = vpm) → (absRun ib md vpm ms v c).1.length + (absRun ib md vpm ms v c).2.2.1 = c := by
+  intro ms
+  induction ms with
+  | nil => intro v c _; simp [absRun]
+  | cons m rest ih =>
+    intro v c hl
+    have hco : (chainOut ib md v (m.2.take (min vpm c))).length = min vpm c := by
+      rw [chainOut_length, List.length_take, hl m List.mem_cons_self]; omega
+    by_cases hcv : c ≤ vpm
+    · simp only [absRun, hcv, if_true, hco]; omega
+    · simp only [absRun, hcv, if_false, List.length_append, hco]
+      have := ih (chainVal md v (m.2.take (min vpm c))) (c - min vpm c) (fun x hx => hl x (List.mem_cons_of_mem _ hx))
+      omega
+
+theorem flatMinis_length (md : Int) (vpm : Nat) (ms : List Mini) (h : ∀ m ∈ ms, m.2.length = vpm) :
+    (flatMinis md ms).length = vpm * ms.length := by
+  induction ms with
+  | nil => simp [flatMinis]
+  | cons m t ih =>
+    have := ih (fun x hx => h x (List.mem_cons_of_mem _ hx))
+    simp only [flatMinis, List.flatMap_cons, List.length_append, List.length_map, h m List.mem_cons_self, List.length_cons] at this ⊢
+    rw [this]; ring
+
+/-- **the values the kernel stores are the running values over the stream's delta sequence** -/
+theorem absBlocks_flat (ib vpm mpb : Nat) (hvpm : 1 ≤ vpm) : ∀ (blocks : List Block) (v : Int) (c : Nat),
+    (∀ b ∈ blocks, b.2.length = mpb ∧ ∀ m ∈ b.2, m.2.length = vpm) → 1 ≤ c →
+    absBlocks ib vpm blocks v c = kernChainP ib v ((flatE blocks).take c) := by
+  intro blocks
+  induction blocks with
+  | nil => intro v c _ _; simp [absBlocks, flatE, kernChainP]
+  | cons b rest ih =>
+    intro v c hb hc
+    obtain ⟨hlen, hm⟩ := hb b List.mem_cons_self
+    obtain ⟨r1, r2⟩ := absRun_flat ib b.1 vpm hvpm b.2 v c hm hc
+    have hfl : flatE (b :: rest) = flatMinis b.1 b.2 ++ flatE rest := by simp [flatE]
+    have hA := flatMinis_length b.1 vpm b.2 hm
+    simp only [absBlocks]
+    cases hd : (absRun ib b.1 vpm b.2 v c).2.2.2 with
+    | true =>
+      simp only [if_true]
+      obtain ⟨fa, _⟩ := absRun_facts ib b.1 vpm hvpm b.2 v c hm hc
+      have hc0 := fa hd
+      -- done inside this block: c ≤ its number of deltas
+      have hle : c ≤ (flatMinis b.1 b.2).length := by
+        have h1 : (absRun ib b.1 vpm b.2 v c).1.length = (kernChainP ib v ((flatMinis b.1 b.2).take c)).length := by rw [r1]
+        have hk : ∀ (w : Int) (l : List (Int × Nat)), (kernChainP ib w l).length = l.length := by
+          intro w l; induction l generalizing w with
+          | nil => rfl
+          | cons e t iht => simp [kernChainP, iht]
+        rw [hk, List.length_take] at h1
+        -- outs.length + c' = c with c' = 0 (from the block run lemma's bookkeeping)
+        have hsum : (absRun ib b.1 vpm b.2 v c).1.length + (absRun ib b.1 vpm b.2 v c).2.2.1 = c := absRun_sum ib b.1 vpm b.2 v c hm
+        omega
+      rw [r1, hfl, List.take_append_of_le_length hle]
+    | false =>
+      simp only [Bool.false_eq_true, if_false]
+      obtain ⟨a, b', c'⟩ := r2 hd
+      rw [r1, a, b', ih _ _ (fun x hx => hb x (List.mem_cons_of_mem _ hx)) (by omega), hfl,
+        take_append_long _ _ c (by rw [hA]; omega), hA, kernChainP_append, List.take_of_length_le (by rw [hA]; omega)]
+
+
+def flatD (ms : List Mini) : List Nat := ms.flatMap (·.2)
+
+theorem unpackLE_zero (n : Nat) (bs : List Nat) : unpackLE 0 n bs = List.replicate n 0 := by
+  unfold unpackLE unpackNat bitField
+  apply List.ext_getElem
+  · simp
+  · intro i h1 h2; simp [Nat.mod_one]
+
+theorem encMini_unpack (vpm : Nat) (h8 : vpm % 8 = 0) (m : Mini) (hm : MiniOk vpm m) (tail : List Nat) :
+    unpackLE m.1 vpm ((encMini m ++ tail).take (vpm * m.1 / 8)) = m.2 ∧ (encMini m ++ tail).drop (vpm * m.1 / 8) = tail := by
+  by_cases hw : m.1 = 0
+  · have e : encMini m = [] := by simp [encMini, hw]
+    rw [hw, e]
+    simp only [Nat.mul_zero, Nat.zero_div, List.take_zero, List.nil_append, List.drop_zero, unpackLE_zero, and_true]
+    exact (hm.zero hw).symm
+  · have e : encMini m = packLE m.1 m.2 := by simp [encMini, hw]
+    have hl : (encMini m).length = vpm * m.1 / 8 := by
+      rw [e, packLE_length, hm.len]
+      have : vpm * m.1 % 8 = 0 := by
+        rw [Nat.mul_mod, h8]; simp
+      omega
+    rw [List.take_left' hl, List.drop_left' hl, e]
+    have := unpackLE_packLE m.1 m.2 hm.small
+    rw [hm.len] at this
+    exact ⟨this, rfl⟩
+
+/-- the specification's miniblock loop on concrete bytes -/
+theorem deltaMinis_concrete (bits vpm : Nat) (hvpm : 1 ≤ vpm) (h8 : vpm % 8 = 0) (md : Int) : ∀ (ms : List Mini) (need : Nat) (last : Int) (acc : List Int) (tail : List Nat),
+    (∀ m ∈ ms, MiniOk vpm m) →
+    ∃ rest', deltaMinis bits vpm md (ms.map (·.1)) (ms.flatMap encMini ++ tail) need last acc
+        = (acc ++ reconRel bits md last ((flatD ms).take need), lastAfter bits md last ((flatD ms).take need),
+            need - min need (vpm * ms.length), rest') ∧
+      (vpm * ms.length ≤ need → rest' = tail) := by
+  intro ms
+  induction ms with
+  | nil =>
+    intro need last acc tail _
+    exact ⟨tail, by simp [deltaMinis, flatD, reconRel, lastAfter], fun _ => rfl⟩
+  | cons m rest ih =>
+    intro need last acc tail hok
+    have hm := hok m List.mem_cons_self
+    have hmul : vpm * (rest.length + 1) = vpm * rest.length + vpm := by ring
+    by_cases hn : need = 0
+    · subst hn
+      refine ⟨(m :: rest).flatMap encMini ++ tail, ?_, ?_⟩
+      · simp [deltaMinis, reconRel, lastAfter]
+      · intro h; simp only [List.length_cons] at h; rw [hmul] at h; omega
+    · obtain ⟨u1, u2⟩ := encMini_unpack vpm h8 m hm (rest.flatMap encMini ++ tail)
+      have hbs : (m :: rest).flatMap encMini ++ tail = encMini m ++ (rest.flatMap encMini ++ tail) := by
+        simp [List.flatMap_cons, List.append_assoc]
+      obtain ⟨rest', i1, i2⟩ := ih (need - min need vpm)
+        (lastAfter bits md last (m.2.take (min need vpm))) (acc ++ reconRel bits md last (m.2.take (min need vpm))) tail
+        (fun x hx => hok x (List.mem_cons_of_mem _ hx))
+      refine ⟨rest', ?_, ?_⟩
+      · simp only [List.map_cons, deltaMinis, hn, if_false, hbs, u1, u2, fold_recon, i1]
+        have hfd : flatD (m :: rest) = m.2 ++ flatD rest := by simp [flatD]
+        have htake : (flatD (m :: rest)).take need = m.2.take (min need vpm) ++ (flatD rest).take (need - min need vpm) := by
+          rw [hfd, List.take_append, hm.len]
+          congr 1
+          · by_cases h : need ≤ vpm
+            · rw [Nat.min_eq_left h]
+            · rw [Nat.min_eq_right (by omega), List.take_of_length_le (by rw [hm.len]; omega), List.take_of_length_le (by rw [hm.len])]
+          · congr 1; omega
+        rw [htake, reconRel_append, lastAfter_append, List.append_assoc]
+        congr 2
+        · congr 1
+          simp only [List.length_cons]; rw [hmul]; omega
+      · intro h
+        apply i2
+        simp only [List.length_cons] at h; rw [hmul] at h; omega
+
+
+/-- the specification's running values over a delta sequence (arithmetic modulo 2^bits, signed) -/
+def specChainP (bits : Nat) : Int → List (Int × Nat) → List Int
+  | _, [] => []
+  | last, e :: es => wrapSg bits (last + e.1 + (e.2 : Int)) :: specChainP bits (wrapSg bits (last + e.1 + (e.2 : Int))) es
+def specLastP (bits : Nat) : Int → List (Int × Nat) → Int
+  | last, [] => last
+  | last, e :: es => specLastP bits (wrapSg bits (last + e.1 + (e.2 : Int))) es
+
+theorem specChainP_append (bits : Nat) (v : Int) (a b : List (Int × Nat)) :
+    specChainP bits v (a ++ b) = specChainP bits v a ++ specChainP bits (specLastP bits v a) b := by
+  induction a generalizing v with
+  | nil => rfl
+  | cons e t ih => simp [specChainP, specLastP, ih]
+
+theorem specLastP_append (bits : Nat) (v : Int) (a b : List (Int × Nat)) :
+    specLastP bits v (a ++ b) = specLastP bits (specLastP bits v a) b := by
+  induction a generalizing v with
+  | nil => rfl
+  | cons e t ih => simp [specLastP, ih]
+
+theorem reconRel_eq (bits : Nat) (md : Int) (last : Int) (ds : List Nat) :
+    reconRel bits md last ds = specChainP bits last (ds.map (fun d => (md, d))) := by
+  induction ds generalizing last with
+  | nil => rfl
+  | cons d t ih => simp [reconRel, specChainP, ih]
+
+theorem lastAfter_eq (bits : Nat) (md : Int) (last : Int) (ds : List Nat) :
+    lastAfter bits md last ds = specLastP bits last (ds.map (fun d => (md, d))) := by
+  induction ds generalizing last with
+  | nil => rfl
+  | cons d t ih => simp [lastAfter, specLastP, ih]
+
+theorem flatMinis_eq (md : Int) (ms : List Mini) : flatMinis md ms = (flatD ms).map (fun d => (md, d)) := by
+  induction ms with
+  | nil => rfl
+  | cons m t ih =>
+    simp only [flatMinis, flatD, List.flatMap_cons, List.map_append] at ih ⊢
+    rw [ih]
+
+/-- the specification's block loop on concrete bytes -/
+theorem deltaBlocks_concrete (bits vpm mpb : Nat) (hvpm : 1 ≤ vpm) (hmpb : 1 ≤ mpb) (h8 : vpm % 8 = 0) (post : List Nat) :
+    ∀ (blocks : List Block) (fuel need : Nat) (last : Int) (acc : List Int),
+    (∀ b ∈ blocks, BlockOk vpm mpb b) → blocks.length < fuel → need ≤ (flatE blocks).length →
+    ∃ rest', deltaBlocks bits mpb vpm fuel (blocks.flatMap encBlockP ++ post) need last acc
+        = some (acc ++ specChainP bits last ((flatE blocks).take need), rest') := by
+  intro blocks
+  induction blocks with
+  | nil =>
+    intro fuel need last acc _ hf hn
+    obtain ⟨f, rfl⟩ : ∃ f, fuel = f + 1 := ⟨fuel - 1, by omega⟩
+    have : need = 0 := by simpa [flatE] using hn
+    subst this
+    exact ⟨[].flatMap encBlockP ++ post, by simp [deltaBlocks, specChainP]⟩
+  | cons b rest ih =>
+    intro fuel need last acc hok hf hn
+    obtain ⟨f, rfl⟩ : ∃ f, fuel = f + 1 := ⟨fuel - 1, by omega⟩
+    have hb := hok b List.mem_cons_self
+    by_cases hn0 : need = 0
+    · subst hn0
+      exact ⟨(b :: rest).flatMap encBlockP ++ post, by simp [deltaBlocks, specChainP]⟩
+    · have hbs : (b :: rest).flatMap encBlockP ++ post
+          = uvarintEnc (zigzagEnc b.1) ++ (b.2.map (·.1) ++ (b.2.flatMap encMini ++ (rest.flatMap encBlockP ++ post))) := by
+        simp [List.flatMap_cons, encBlockP, List.append_assoc]
+      have hwl : (b.2.map (·.1)).length = mpb := by simp [hb.len]
+      obtain ⟨rest1, m1, m2⟩ := deltaMinis_concrete bits vpm hvpm h8 b.1 b.2 need last acc (rest.flatMap encBlockP ++ post) hb.minis
+      have hfl : flatE (b :: rest) = flatMinis b.1 b.2 ++ flatE rest := by simp [flatE]
+      have hlenM : (flatMinis b.1 b.2).length = vpm * mpb := by
+        rw [flatMinis_length b.1 vpm b.2 (fun m hm => (hb.minis m hm).len), hb.len]
+      have hlenD : (flatD b.2).length = vpm * mpb := by
+        have := hlenM; rw [flatMinis_eq, List.length_map] at this; exact this
+      rw [hb.len] at m1 m2
+      simp only [deltaBlocks, hn0, if_false, hbs, zzVar_enc, List.take_left' hwl, List.drop_left' hwl, m1]
+      by_cases hle : need ≤ vpm * mpb
+      · -- everything wanted is in this block
+        have hmin : min need (vpm * mpb) = need := by omega
+        rw [hmin, Nat.sub_self]
+        obtain ⟨g, rfl⟩ : ∃ g, f = g + 1 := ⟨f - 1, by simp at hf; omega⟩
+        refine ⟨rest1, ?_⟩
+        simp only [deltaBlocks, if_true]
+        rw [hfl, List.take_append_of_le_length (by rw [hlenM]; exact hle), flatMinis_eq, ← List.map_take, reconRel_eq]
+      · have hmin : min need (vpm * mpb) = vpm * mpb := by omega
+        have hr := m2 (by omega)
+        rw [hmin, hr]
+        have htk : (flatD b.2).take need = flatD b.2 := List.take_of_length_le (by rw [hlenD]; omega)
+        rw [htk]
+        obtain ⟨rest', i1⟩ := ih f (need - vpm * mpb) (lastAfter bits b.1 last (flatD b.2)) (acc ++ reconRel bits b.1 last (flatD b.2))
+          (fun x hx => hok x (List.mem_cons_of_mem _ hx)) (by simp at hf; omega)
+          (by rw [hfl, List.length_append, hlenM] at hn; omega)
+        refine ⟨rest', ?_⟩
+        rw [i1, hfl, take_append_long _ _ need (by rw [hlenM]; omega), hlenM, specChainP_append, reconRel_eq, lastAfter_eq,
+          ← flatMinis_eq, List.append_assoc]
+
+
+theorem ofSigned_eq_wrapU (bits : Nat) (x : Int) : ofSigned bits x = wrapU bits x := rfl
+
+theorem wrapU_congr (bits : Nat) (a b : Int) (h : a % ((2 ^ bits : Nat) : Int) = b % ((2 ^ bits : Nat) : Int)) :
+    wrapU bits a = wrapU bits b := by
+  unfold wrapU; rw [h]
+
+theorem wrapU_mod_iff (bits : Nat) (a b : Int) (h : wrapU bits a = wrapU bits b) :
+    a % ((2 ^ bits : Nat) : Int) = b % ((2 ^ bits : Nat) : Int) := by
+  unfold wrapU at h
+  have hM : (0 : Int) < ((2 ^ bits : Nat) : Int) := by exact_mod_cast Nat.two_pow_pos bits
+  have h1 := Int.emod_nonneg a (ne_of_gt hM)
+  have h2 := Int.emod_nonneg b (ne_of_gt hM)
+  have := congrArg (fun n : Nat => (n : Int)) h
+  simp only [Int.toNat_of_nonneg h1, Int.toNat_of_nonneg h2] at this
+  exact this
+
+theorem wrapS_mod (bits : Nat) (hb : 1 ≤ bits) (x : Int) : wrapS bits x % ((2 ^ bits : Nat) : Int) = x % ((2 ^ bits : Nat) : Int) := by
+  have hM : (0 : Int) < ((2 ^ bits : Nat) : Int) := by exact_mod_cast Nat.two_pow_pos bits
+  have h1 := Int.emod_nonneg x (ne_of_gt hM)
+  unfold wrapS wrapU
+  simp only [Int.toNat_of_nonneg h1]
+  split
+  · exact Int.emod_emod_of_dvd x (dvd_refl _)
+  · rw [Int.sub_emod, Int.emod_self, Int.sub_zero, Int.emod_emod_of_dvd _ (dvd_refl _), Int.emod_emod_of_dvd _ (dvd_refl _)]
+
+/-- reducing a 64-bit wrapped value to `bits ≤ 64` bits forgets the 64-bit wrap -/
+theorem wrapU_wrapS64 (bits : Nat) (hb : bits ≤ 64) (x : Int) : wrapU bits (wrapS 64 x) = wrapU bits x := by
+  apply wrapU_congr
+  have hd : (((2 ^ bits : Nat) : Int)) ∣ (((2 ^ 64 : Nat) : Int)) := by
+    have : (2 : Nat) ^ bits ∣ 2 ^ 64 := Nat.pow_dvd_pow 2 hb
+    exact_mod_cast this
+  have h64 := wrapS_mod 64 (by norm_num) x
+  rw [← Int.emod_emod_of_dvd (wrapS 64 x) hd, h64, Int.emod_emod_of_dvd x hd]
+
+theorem wrapU_add_congr (bits : Nat) (a b c : Int) (h : wrapU bits a = wrapU bits b) : wrapU bits (a + c) = wrapU bits (b + c) := by
+  apply wrapU_congr
+  have := wrapU_mod_iff bits a b h
+  rw [Int.add_emod, this, ← Int.add_emod]
+
+/-- **the kernel's stored values are the specification's values** (as unsigned `bits`-bit patterns),
+    for `bits` = 32 or 64 or any width up to 64: the kernel uses one more delta, for the value it never stores -/
+theorem chains_agree (bits : Nat) (hb : bits ≤ 64) : ∀ (es : List (Int × Nat)) (s V : Int) (x : Int × Nat),
+    wrapU bits s = wrapU bits V →
+    ofSigned bits s :: (specChainP bits s es).map (ofSigned bits) = kernChainP bits V (es ++ [x]) := by
+  intro es
+  induction es with
+  | nil => intro s V x h; simp [specChainP, kernChainP, ofSigned_eq_wrapU, h]
+  | cons e t ih =>
+    intro s V x h
+    simp only [specChainP, List.map_cons, List.cons_append, kernChainP]
+    rw [ofSigned_eq_wrapU, h]
+    congr 1
+    apply ih
+    -- residues agree after the step
+    have h1 : wrapU bits (wrapSg bits (s + e.1 + (e.2 : Int))) = wrapU bits (s + e.1 + (e.2 : Int)) :=
+      wrapU_congr bits _ _ (wrapSg_mod bits _)
+    have h2 : wrapU bits (wrapS 64 (V + e.1 + (e.2 : Int))) = wrapU bits (V + e.1 + (e.2 : Int)) := wrapU_wrapS64 bits hb _
+    rw [h1, h2, Int.add_assoc, Int.add_assoc]
+    exact wrapU_add_congr bits s V _ h
+
+
+theorem flatE_length (vpm mpb : Nat) (blocks : List Block) (h : ∀ b ∈ blocks, BlockOk vpm mpb b) :
+    (flatE blocks).length = vpm * mpb * blocks.length := by
+  induction blocks with
+  | nil => simp [flatE]
+  | cons b t ih =>
+    have hb := h b List.mem_cons_self
+    have hl := flatMinis_length b.1 vpm b.2 (fun m hm => (hb.minis m hm).len)
+    have := ih (fun x hx => h x (List.mem_cons_of_mem _ hx))
+    simp only [flatE, List.flatMap_cons, List.length_append, List.length_cons] at this ⊢
+    rw [this, hl, hb.len]; ring
+
+/-- **`delta_binary_unpack` = `Spec.decodeDelta`** on every stream a conforming writer can emit with
+    miniblock widths ≤ 28: any block size / miniblock count (values per miniblock a multiple of 8), any
+    mixture of widths incl. 0, INT32 and INT64, any count covered by the blocks, at any buffer position,
+    whatever follows the stream.  The kernel does not fault, and the output array holds exactly the
+    specification's values (as unsigned patterns of the item width). -/
+theorem deltaKernel_eq_spec (pre post : List Nat) (longval : Bool) (blockSize mpb cnt : Nat) (first : Int) (blocks : List Block)
+    (hbs : blockSize < 2 ^ 64) (hmpb64 : mpb < 2 ^ 64) (hfirst : okI64 first)
+    (hmpb : 1 ≤ mpb) (hvpm : 1 ≤ blockSize / mpb) (h8 : blockSize / mpb % 8 = 0) (hcnt1 : 1 ≤ cnt) (hcnt : cnt < 2 ^ 63)
+    (hblocks : ∀ b ∈ blocks, BlockOk (blockSize / mpb) mpb b)
+    (hroom : cnt ≤ blockSize / mpb * mpb * blocks.length)
+    (hbytes : ∀ b ∈ pre ++ encStreamP blockSize mpb cnt first blocks ++ post, b < 256) :
+    ∃ vals rest slots loc',
+      decodeDelta (if longval then 64 else 32) (encStreamP blockSize mpb cnt first blocks ++ post) = some (vals, rest) ∧
+      deltaBinaryUnpack (pre ++ encStreamP blockSize mpb cnt first blocks ++ post) pre.length cnt longval = .ok (slots, loc') ∧
+      slots.toList = vals.map (ofSigned (if longval then 64 else 32)) := by
+  set bits := (if longval then 64 else 32) with hbits
+  have hb64 : bits ≤ 64 := by rw [hbits]; split <;> omega
+  set vpm := blockSize / mpb with hvpmdef
+  obtain ⟨slots, loc', k1, k2⟩ := deltaBinaryUnpack_concrete pre post longval blockSize mpb cnt first blocks hbs hmpb64 hfirst
+    hmpb hvpm hcnt1 hcnt hblocks hroom hbytes
+  rw [← hbits, ← hvpmdef] at k2
+  have hE := flatE_length vpm mpb blocks hblocks
+  have hlens : ∀ b ∈ blocks, b.2.length = mpb ∧ ∀ m ∈ b.2, m.2.length = vpm :=
+    fun b hb => ⟨(hblocks b hb).len, fun m hm => ((hblocks b hb).minis m hm).len⟩
+  rw [absBlocks_flat bits vpm mpb hvpm blocks first cnt hlens hcnt1] at k2
+  -- the specification decoder
+  have hblen : blocks.length < (encStreamP blockSize mpb cnt first blocks ++ post).length + 1 := by
+    have gen : ∀ bl : List Block, bl.length ≤ (bl.flatMap encBlockP).length := by
+      intro bl
+      induction bl with
+      | nil => simp
+      | cons b t ih =>
+        simp only [List.flatMap_cons, List.length_append, List.length_cons, encBlockP]
+        have := uvarintEnc_length_pos (zigzagEnc b.1)
+        omega
+    have := gen blocks
+    simp only [encStreamP, List.length_append]; omega
+  obtain ⟨rest', d1⟩ := deltaBlocks_concrete bits vpm mpb hvpm hmpb h8 post blocks
+    ((encStreamP blockSize mpb cnt first blocks ++ post).length + 1) (cnt - 1) (wrapSg bits first) [wrapSg bits first]
+    hblocks hblen (by rw [hE]; omega)
+  have hdec : decodeDelta bits (encStreamP blockSize mpb cnt first blocks ++ post)
+      = some ([wrapSg bits first] ++ specChainP bits (wrapSg bits first) ((flatE blocks).take (cnt - 1)), rest') := by
+    have hm0 : ¬ (mpb = 0) := by omega
+    have hc0 : ¬ (cnt = 0) := by omega
+    have hstream : encStreamP blockSize mpb cnt first blocks ++ post
+        = uvarintEnc blockSize ++ (uvarintEnc mpb ++ (uvarintEnc cnt ++ (uvarintEnc (zigzagEnc first) ++ (blocks.flatMap encBlockP ++ post)))) := by
+      simp [encStreamP, List.append_assoc]
+    rw [hstream] at d1 ⊢
+    unfold decodeDelta
+    simp only [uvarint_rt, zzVar_enc, bind, Option.bind, hm0, hc0, if_false]
+    exact d1
+  refine ⟨_, rest', slots, loc', hdec, k1, ?_⟩
+  rw [k2]
+  have hlt : cnt - 1 < (flatE blocks).length := by rw [hE]; omega
+  have htake : (flatE blocks).take cnt = (flatE blocks).take (cnt - 1) ++ [(flatE blocks)[cnt - 1]] := by
+    have : cnt = (cnt - 1) + 1 := by omega
+    conv => lhs; rw [this]
+    rw [List.take_add_one]
+    simp [List.getElem?_eq_getElem hlt]
+  rw [htake]
+  have hres : wrapU bits (wrapSg bits first) = wrapU bits first := wrapU_congr bits _ _ (wrapSg_mod bits first)
+  have := chains_agree bits hb64 ((flatE blocks).take (cnt - 1)) (wrapSg bits first) first ((flatE blocks)[cnt - 1]) hres
+  simp only [List.singleton_append, List.map_cons]
+  exact this.symm
 
 end PqV.Impl
